@@ -333,6 +333,33 @@ def execute(scn, L):
                                  w.faults.get('seek_error')):
                     out.probe('io_error_fired')
 
+    # the two loading entry points are one loader: given the same bytes
+    # (and no injected I/O fault) they agree - both fail with the same
+    # kind of error, or both give the same tree
+    loads = [a for a in w.actors.values() if a.kind == 'dom_load' and
+             a.end in ('ok', 'raise') and a.data is not None]
+    io_fault = any(f['kind'] in ('read_error', 'seek_error', 'nonseekable')
+                   for f in scn.get('faults', ()))
+
+    if len(loads) == 2 and not io_fault and loads[0].data == loads[1].data \
+       and {loads[0].spec.get('via'), loads[1].spec.get('via')} == \
+       {'from_bytes', 'from_stream'}:
+        from dsim import domworld
+        a, b = loads
+        out.probe('both_loaders_compared')
+
+        if a.end != b.end:
+            out.violate('C08.loaders-disagree', '%s-vs-%s' % (a.end, b.end),
+                        {'from_bytes' if a.spec.get('via') == 'from_bytes'
+                         else 'from_stream': a.exc_info,
+                         'other': b.exc_info})
+        elif a.end == 'raise' and a.exc_info['type'] != b.exc_info['type']:
+            out.violate('C08.loaders-disagree', 'error-type',
+                        {'a': a.exc_info, 'b': b.exc_info})
+        elif a.end == 'ok' and domworld.snap_tree(a.tree) != \
+                domworld.snap_tree(b.tree):
+            out.violate('C08.loaders-disagree', 'tree', None)
+
     if seen is None:
         out.discarded = 'no-consumer-ran'
         return out
